@@ -24,6 +24,7 @@ TInit == Init /\ l = 1
 TConstruct == IsOp("Construct") /\ Construct(Ev.obj, Ev.cls, Ev.cfg, Ev.dict) /\ l' = l + 1
 TSetTol    == IsOp("SetTol") /\ SetTol(Ev.obj, Ev.tol) /\ l' = l + 1
 TSolve     == IsOp("Solve") /\ Solve(Ev.obj) /\ l' = l + 1
+TQuery     == IsOp("Query") /\ Query(Ev.obj, Ev.q) /\ l' = l + 1
 TCall ==
   /\ IsOp("Call")
   /\ Report(Ev,  (IF Ev.raised # Ev.oracle_raised THEN {"HIST.raised-differently"} ELSE {})
@@ -38,7 +39,7 @@ TBatch ==
   /\ l' = l + 1 /\ UNCHANGED <<objs, glob, shtol, dicts, read, hist>>
 TReset == IsOp("Reset") /\ objs' = <<>> /\ glob' = [m \in DOMAIN glob |-> None] /\ shtol' = 1
           /\ dicts' = <<>> /\ read' = None /\ hist' = <<>> /\ l' = l + 1
-TNext == TConstruct \/ TSetTol \/ TSolve \/ TCall \/ TBatch \/ TReset
+TNext == TConstruct \/ TSetTol \/ TSolve \/ TQuery \/ TCall \/ TBatch \/ TReset
 TSpec == TInit /\ [][TNext]_tvars
 Accepted == TLCGet("stats").diameter - 1 = Len(TLog)
 ==========================================================================
